@@ -46,6 +46,14 @@ func runC01(ctx *Ctx) *Report {
 		c2.Tree = encForest(f)
 		cases = append(cases, c2)
 	}
+	// names that differ only by case are different names: every forest with ≤ 4 nodes over {a, A}
+	for _, f := range forestsUpTo(4, []string{"a", "A"}) {
+		doc := spell(f, plainSpelling)
+		c := newCase("out")
+		c.Mode = "iter-text"
+		c.Doc, c.DocText, c.Tree = hx(doc), docText(doc), encForest(f)
+		cases = append(cases, c)
+	}
 	rep.Exhaustive = true
 	rep.Notes = append(rep.Notes, "exhaustive: every ordered forest with ≤ "+itoa(n)+" nodes over "+itoa(len(alphabet))+" names (plain spelling, default format) + one rotating (spelling, format) pair each")
 	// random large forests with hostile names in random spellings/formats
@@ -77,6 +85,11 @@ func runC01(ctx *Ctx) *Report {
 		c.DocText = docText(doc)
 		c.Tree = encForest(f)
 		cases = append(cases, c)
+		if len(f) == 1 && k%3 == 0 {
+			// the same drawing with the massive option: for one root the output is determined
+			c.Mode, c.Massive = "iter-text", true
+			cases = append(cases, c)
+		}
 	}
 	runCases(rep, cases, ctx.Workers, func(c Case) bool {
 		return nonTrivialEnc(c.Tree)
